@@ -29,8 +29,8 @@ import (
 // Files: c18.go (registration, external table), c18_resolve.go, c18_literal.go (L1), c18_l2.go,
 // c18_init.go + c18_flow.go + c18_sorted.go + c18_immutable.go (L2 b/c), c18_l3.go, c18_reads.go, c18_l4.go,
 // c18_interp.go + c18_exec.go + c18_stmt.go + c18_eval.go + c18_compare.go + c18_calls.go (the evaluator),
-// c18_maps.go (lookup tables), c18_concrete.go (literal slices/structs), c18_loops.go, c18_flowfix.go (fixpoint of the init analysis),
-// c18_benign.go + c18_variants.go + c18_round5*.go + c18_round7*.go (behaviour-preserving variants), c18_seeded.go (defects seeded into them).
+// c18_maps.go (lookup tables), c18_concrete.go (literal slices/structs), c18_tags.go (witness tag lists, rule-key index), c18_loops.go, c18_flowfix.go (fixpoint of the init analysis),
+// c18_benign.go + c18_variants.go + c18_round5*.go + c18_round7*.go + c18_round8.go (behaviour-preserving variants), c18_seeded.go (defects seeded into them).
 
 func init() {
 	c18Prop := &core.Property{
@@ -38,7 +38,7 @@ func init() {
 		Title: "Area classification of ways follows the published polygon-features rules",
 		Explanation: "Decided statically: (L1) the JSON literal unmarshalled into the conditions table, read as a constant through the type checker, equals tables/polygon-features.json (the published Overpass-turbo/osmtogeojson list) as a map key -> (all|whitelist|blacklist, value set), both directions, no duplicates; the published key `area` may be absent because the code handles it (L3). " +
 			"(L2) every binary search evaluated while (*Way).Polygon (or a function of the package it calls) decides a whitelist or blacklist entry searches that entry's value list for the tag value found under the entry's key; the value lists are sorted before any call (literal already sorted, or on every path through package initialisation - the call in the table's declaration, then the init functions - the unmarshal of the literal into the table or into a local slice is followed by a complete loop over that slice in which every iteration sorts the entry's list in place, directly or in helpers, and that slice is, is returned into, or is assigned to the table; slices assigned from one another share their entries); nothing else writes the table (assignments during initialisation are followed by the same analysis; local pointers to an entry must be read-only). " +
-			"(L3) (*Way).Polygon, executed over the control-flow graphs of itself and of every package function it calls (parameters, receivers, multi-value results, closures, function values, never-written lookup-table maps, re-assigned locals and pointer aliases are followed) for every combination of the finite abstractions {len(nodes) 0..5} x {closed, open} x {area: absent, no, other...} and, per rule entry, {value: absent, no, other...} x {all, whitelist, blacklist} x {search index at end, inside} x {element equal, different} (and, for the list kinds, witness lists of 0, 2, 3 and 4 ascending elements with the value before, at, between and behind them, so that a hand-written search is executed rather than recognised), returns exactly what the published algorithm returns, never indexes out of range, the blacklist truth table is the complement of the whitelist one, an iteration of the rule loop that does not return leaves every local of the prefix unchanged (so the loop is `first matching entry wins`), and every expression of way, node-list, way-node or tag-list type in the evaluated functions is a len/index/ID read or a Tags.Find with the key `area` or the entry's key (so the answer depends on closedness and the tag set only). " +
+			"(L3) (*Way).Polygon, executed over the control-flow graphs of itself and of every package function it calls (parameters, receivers, multi-value results, closures, function values, never-written lookup-table maps, re-assigned locals and pointer aliases are followed) for every combination of the finite abstractions {len(nodes) 0..5} x {closed, open} x {area: absent, no, other...} and, per rule entry, {value: absent, no, other...} x {all, whitelist, blacklist} x {search index at end, inside} x {element equal, different} (and, for the list kinds, witness lists of 0, 2, 3 and 4 ascending elements with the value before, at, between and behind them, so that a hand-written search is executed rather than recognised), returns exactly what the published algorithm returns, never indexes out of range, the blacklist truth table is the complement of the whitelist one, an element without tags is answered false (at once or through the table), code that walks the tags itself (one pass over the tags with the rules looked up in a key index filled once, completely, from the table in init; bodies of Tags methods other than Find) is run on witness tag lists with unrelated tags before and behind, absent values spelled as present-but-empty tags, the entry's tag before the area tag, and a second tag of the entry's key, and gives the same answers (so the result is a function of the first value per key), an iteration of the rule loop that does not return leaves every local of the prefix unchanged (so the loop is `first matching entry wins`), and every expression of way, node-list, way-node or tag-list type in the evaluated functions is a len/index/ID read or a Tags.Find with the key `area` or the entry's key (so the answer depends on closedness and the tag set only). " +
 			"(L4) (*Relation).Polygon (evaluated the same way; a literal table of rule structs it may be routed through is evaluated on its actual contents, sort.SearchStrings on the literal order) is true exactly for type in {multipolygon, boundary} and consults no tag but `type`. " +
 			"NOT decided: behaviour for node counts above 5 beyond `4 behaves like 5` (the rule loop may not compare the node count); value lists longer than 4 elements; correctness of sort.SearchStrings/sort.Strings/encoding/json themselves; tag lists holding the same key twice (Find returns the first); calls to Polygon from another package-level initialiser that runs before polygon.go's init.",
 		Assumptions: []string{"go/types constant evaluation, go/cfg (x/tools v0.29.0)", "encoding/json.Unmarshal field matching by struct tag (case-insensitive)", "sort.SearchStrings returns the insertion index in [0,len] on a sorted slice", "sort.Strings / sort.StringSlice.Sort / slices.Sort sort in place", "package init runs before any exported call", "Tags.Find(k) returns the value of the first tag with key k, \"\" when absent (it is the primitive through which tags are read; its body is not evaluated)", "tables/polygon-features.json is a faithful transcription of the published list"},
@@ -48,11 +48,11 @@ func init() {
 		DesignRef:   "DESIGN.md §5 C18",
 		// Floors count roles, not syntactic sites: L1 = source + 27 published keys; L2 = one lookup obligation per
 		// condition kind with a list (whitelist, blacklist) + sorted + immutable; L3 = 5 prefix clauses + skip +
-		// 3 kinds + negation + after-loop + reads + condition values; L4 = 2 accepted types + others + reads.
+		// 3 kinds + negation + after-loop + empty tag set + tag order/duplicates + reads + condition values; L4 = 2 accepted types + others + reads.
 		Rules: []*core.Rule{
 			{ID: "L1", Floor: 28, Doc: "embedded JSON literal equals the published polygon-features table (per key, both directions)", Run: c18L1},
 			{ID: "L2", Floor: 4, Doc: "binary searches (in Polygon or its helpers) run on the entry's value list for the entry's tag value; the lists are sorted on every path through init before use; the table is never rewritten", Run: c18L2},
-			{ID: "L3", Floor: 13, Doc: "Way.Polygon (with the package functions it calls) equals the published algorithm on every abstract input; reads only node ids and Tags.Find", Run: c18L3},
+			{ID: "L3", Floor: 15, Doc: "Way.Polygon (with the package functions it calls) equals the published algorithm on every abstract input; reads only node ids and Tags.Find", Run: c18L3},
 			{ID: "L4", Floor: 4, Doc: "Relation.Polygon (with the package functions it calls) accepts exactly the types multipolygon and boundary and reads only Tags.Find(type)", Run: c18L4},
 		},
 		Mutants: []core.Mutant{
@@ -89,6 +89,8 @@ func init() {
 	c18Prop.Mutants = append(c18Prop.Mutants, c18Round7Mutants()...)
 	c18Prop.Benign = append(c18Prop.Benign, c18Round7Benign()...)
 	c18Prop.Benign = append(c18Prop.Benign, c18Round7bBenign()...)
+	c18Prop.Mutants = append(c18Prop.Mutants, c18Round8Mutants()...)
+	c18Prop.Benign = append(c18Prop.Benign, c18Round8Benign()...)
 	register(c18Prop)
 }
 
